@@ -1,9 +1,11 @@
 /* views: span / array / extents / layout mappings / mdspan address exactly the elements they span — C19 (+C05, C02).
  * The family is lowered in parts (family.json variants, VF_PART): 0 span+array (variant `safe`: SAFE contract configuration), 1 extents, 3 layout_left/right,
- * 4 layout_stride, 2 mdspan over left/right, 5 mdspan over stride, 6 linalg::layout_transpose + submdspan_extents; VF_IT selects the index type.
+ * 4 layout_stride, 2 mdspan over left/right, 5 mdspan over stride, 6 linalg::layout_transpose + submdspan_extents, 7 / 8 the conversion matrices of the
+ * layout_left/right mappings / of mdspan (source pattern x destination pattern); VF_IT selects the index type.
  * span: the view is placed over an EXACT-size heap object (VF_BUF): any address outside [p, p+n) is a bounds failure.
  * Not lowered: mdarray (clang-14 rejects mdarray.hpp:75), submdspan (commented out in the library), rank-0 layout_left/right::operator()() (clang-14),
- * the declared-but-undefined members of layout_stride (required_span_size, is_exhaustive, operator==, converting constructors) — see driver.cpp. */
+ * the declared-but-undefined members of layout_stride (required_span_size, is_exhaustive, operator==, converting constructors; hence also no conversion of
+ * layout_stride mappings / of mdspan over layout_stride, and no layout_left/right::mapping(layout_stride::mapping)) — see driver.cpp. */
 #ifndef VF_PART
 #define VF_PART 0
 #endif
@@ -26,9 +28,8 @@ const SD *vf_sd_of; SD vf_sd_snap; const S4 *vf_s4_of; S4 vf_s4_snap; const A4 *
     __CPROVER_assert(same, "C05: the view and the viewed elements are unmodified when the assertion handler runs"); } while (0)
 #define EXPECT_VIOLATION_BUF(p, n) do { vf_expect_handler = 1; vf_buf_of = (p); vf_buf_in = p##_in; vf_buf_n = (n); } while (0)
 #endif
-#if VF_PART != 1   /* part 1 (extents) contains no TETL_PRECONDITION site: the lowered code has neither etl::assert_msg nor a call of the handler */
+/* every part: part 1 (extents) reaches span::operator[] (TETL_PRECONDITION) through extents(span<T,N>) */
 #include "vf_handler.h"
-#endif
 #if VF_PART == 0
 #define MKSD(s, p, n) SD s; s._storage._data = (p); s._storage._size = (n)
 #define MKS4(s, p) S4 s; s._storage._data = (p)
@@ -93,6 +94,113 @@ void h_span_ctor(void) { VF_INPUT(unsigned char, n); VF_BUF(int, p, n, 6); VF_IN
   VF_ASSERT(a4_rbegin_base(&arr) == arr._buf + 4 && a4_rend_base(&arr) == arr._buf && a4_crbegin_base(&arr) == arr._buf + 4 && a4_crend_base(&arr) == arr._buf && a4_rbegin_c_base(&arr) == arr._buf + 4 && a4_rend_c_base(&arr) == arr._buf, "array<int,4>: rbegin/rend/crbegin/crend base() == end() / begin()");
   VF_REACH(); }
 
+/*@COMMON@*/
+#if VF_PART == 0
+/* ---- conversions between differently-parameterised spans; observers of the const / short instantiations (separate function bodies) ----
+ * [span.cons]/20: span(const span<U,N>& s): data() == s.data() and size() == s.size(); constructible iff extent == dynamic_extent || N == dynamic_extent ||
+ * N == extent and U(*)[] -> T(*)[] is a qualification conversion; explicit iff extent != dynamic_extent && N == dynamic_extent. */
+typedef struct etl_span_constint_18446744073709551615 CSD;
+typedef struct etl_span_constint_4 CS4;
+typedef struct etl_span_short_18446744073709551615 HD;
+typedef struct etl_span_short_4 H4;
+typedef struct etl_span_constshort_18446744073709551615 CHD;
+typedef struct etl_span_constshort_4 CH4;
+typedef struct etl_array_short_4 AH4;
+#define MKDYN(T, s, p, n) T s; s._storage._data = (p); s._storage._size = (n)
+#define MKST4(T, s, p) T s; s._storage._data = (p)
+#define ISDYN(s, xd, xn, what) VF_ASSERT((s)._storage._data == (xd) && (s)._storage._size == (unsigned long)(xn), what ": data() == source data() and size() == source size()")
+#define ISST4(s, xd, what) VF_ASSERT((s)._storage._data == (xd), what ": data() == source data() (size() is the static extent 4 == source size())")
+#define SUBIST(ET, call, xd, xn, xe) do { ET *d_ = 0; unsigned long n_ = 99, e_ = (call); VF_ASSERT(d_ == (xd) && n_ == (unsigned long)(xn), #call ": data() == original data() + offset and size() == count"); \
+    VF_ASSERT(e_ == (unsigned long)(xe), #call ": the static extent of the result type"); VF_ASSERT(INSIDE(d_, n_, p, n), #call ": the result lies inside the original range"); } while (0)
+/* observers / sub-views of the span `s` over the exact-size buffer [p, p+n): P = entry point prefix, ET = element type, ESZ = sizeof(element) */
+#define DYN_OBS(P, ET, ESZ, what) do { \
+  VF_ASSERT(P##_data(&s) == p && P##_size(&s) == n && P##_size_bytes(&s) == ESZ * n && P##_empty(&s) == (n == 0), what ": data/size/size_bytes/empty"); \
+  VF_ASSERT(P##_begin(&s) == p && P##_end(&s) == p + n && P##_rbegin_base(&s) == p + n && P##_rend_base(&s) == p, what ": begin/end, rbegin().base() == end(), rend().base() == begin()"); \
+  if (n > 0) VF_ASSERT(P##_front(&s) == p && P##_back(&s) == p + (n - 1), what ": front/back address the first/last element"); \
+  if (i < n) VF_ASSERT(P##_index(&s, i) == p + i, what ": operator[](i) addresses element i"); } while (0)
+#define DYN_SUB(P, ET) do { \
+  if (c <= n) { SUBIST(ET, P##_first_n(&s, c, OUT), p, c, DYNV); SUBIST(ET, P##_last_n(&s, c, OUT), p + (n - c), c, DYNV); } \
+  if (o <= n) { SUBIST(ET, P##_subspan_o(&s, o, OUT), p + o, n - o, DYNV); SUBIST(ET, P##_subspan_oc(&s, o, DYNV, OUT), p + o, n - o, DYNV); if (c <= n - o) SUBIST(ET, P##_subspan_oc(&s, o, c, OUT), p + o, c, DYNV); } \
+  if (n >= 2) { SUBIST(ET, P##_first_2(&s, OUT), p, 2, 2); SUBIST(ET, P##_last_2(&s, OUT), p + (n - 2), 2, 2); SUBIST(ET, P##_sub_2(&s, OUT), p + 2, n - 2, DYNV); } \
+  if (n >= 3) SUBIST(ET, P##_sub_1_2(&s, OUT), p + 1, 2, 2); } while (0)
+#define ST4_OBS(P, ET, ESZ, what) do { \
+  VF_ASSERT(P##_data(&s) == p && P##_size(&s) == 4 && P##_size_bytes(&s) == ESZ * 4 && !P##_empty(&s), what ": data/size/size_bytes/empty"); \
+  VF_ASSERT(P##_begin(&s) == p && P##_end(&s) == p + 4 && P##_rbegin_base(&s) == p + 4 && P##_rend_base(&s) == p, what ": begin/end/rbegin/rend"); \
+  VF_ASSERT(P##_front(&s) == p && P##_back(&s) == p + 3, what ": front/back"); if (i < 4) VF_ASSERT(P##_index(&s, i) == p + i, what ": operator[](i) addresses element i"); \
+  if (c <= 4) { SUBIST(ET, P##_first_n(&s, c, OUT), p, c, DYNV); SUBIST(ET, P##_last_n(&s, c, OUT), p + (4 - c), c, DYNV); } \
+  if (o <= 4) { SUBIST(ET, P##_subspan_o(&s, o, OUT), p + o, 4 - o, DYNV); SUBIST(ET, P##_subspan_oc(&s, o, DYNV, OUT), p + o, 4 - o, DYNV); if (c <= 4 - o) SUBIST(ET, P##_subspan_oc(&s, o, c, OUT), p + o, c, DYNV); } \
+  SUBIST(ET, P##_first_2(&s, OUT), p, 2, 2); SUBIST(ET, P##_last_2(&s, OUT), p + 2, 2, 2); SUBIST(ET, P##_sub_2(&s, OUT), p + 2, 2, 2); } while (0)
+#define BYTES_ARE(call, CQ, xd, xn) do { CQ unsigned char *bd = 0; unsigned long bn = 99; unsigned long be = (call); VF_ASSERT(bd == (CQ unsigned char *)(xd) && bn == (unsigned long)(xn) && be == DYNV, #call ": same address, size_bytes() bytes, dynamic extent"); } while (0)
+#endif
+
+/* the converting constructor between every combination of {int, int const} x {dynamic, static} (+ copy-initialisation), then the observers / sub-views of the RESULT */
+/*@GROUP name=span_conv props=C19,C02,C05 kind=K unwind=8 bound=len<=6 when=VF_PART==0@*/
+void h_span_conv(void) { VF_INPUT(unsigned char, n); VF_BUF(int, p, n, 6); VF_INPUT(unsigned char, i); VF_INPUT(unsigned char, o); VF_INPUT(unsigned char, c); VF_INPUT(unsigned char, op);
+  VF_INPUT(CSD, s); VF_INPUT(CS4, s4); VF_INPUT(SD, m); VF_INPUT(S4, m4); MKSD(src, p, n); MKS4(src4, p); MKDYN(CSD, csrc, p, n); MKST4(CS4, csrc4, p); _Bool dyn = 1;
+  if (op == 0) { csd_from_sd(&s, &src); ISDYN(s, p, n, "span<int const>(span<int>)"); }
+  else if (op == 1) { csd_implicit_sd(&s, &src); ISDYN(s, p, n, "span<int const> = span<int>"); }
+  else if (op == 2) { csd_from_csd(&s, &csrc); ISDYN(s, p, n, "span<int const>(span<int const>)"); }
+  else if (op == 3) { sd_copy(&m, &src); ISDYN(m, p, n, "span<int>(span<int>)"); s._storage._data = m._storage._data; s._storage._size = m._storage._size; }
+  else { __CPROVER_assume(n == 4);
+    if (op == 4) { csd_from_s4(&s, &src4); ISDYN(s, p, 4, "span<int const>(span<int,4>)"); }
+    else if (op == 5) { csd_implicit_s4(&s, &src4); ISDYN(s, p, 4, "span<int const> = span<int,4>"); }
+    else if (op == 6) { csd_from_cs4(&s, &csrc4); ISDYN(s, p, 4, "span<int const>(span<int const,4>)"); }
+    else if (op == 7) { sd_ctor_s4(&m, &src4); ISDYN(m, p, 4, "span<int>(span<int,4>)"); s._storage._data = m._storage._data; s._storage._size = m._storage._size; }
+    else { dyn = 0;
+      if (op == 8) { cs4_from_sd(&s4, &src); ISST4(s4, p, "span<int const,4>(span<int>)"); }
+      else if (op == 9) { cs4_from_s4(&s4, &src4); ISST4(s4, p, "span<int const,4>(span<int,4>)"); }
+      else if (op == 10) { cs4_from_csd(&s4, &csrc); ISST4(s4, p, "span<int const,4>(span<int const>)"); }
+      else if (op == 11) { cs4_from_cs4(&s4, &csrc4); ISST4(s4, p, "span<int const,4>(span<int const,4>)"); }
+      else { s4_ctor_sd(&m4, &src); ISST4(m4, p, "span<int,4>(span<int>)"); s4._storage._data = m4._storage._data; } } }
+  if (dyn) { DYN_OBS(csd, const int, 4UL, "converted span<int const>"); DYN_SUB(csd, const int); BYTES_ARE(csd_as_bytes(&s, &bd, &bn), const, p, 4UL * n); }
+  else { CS4 t_ = s4; { CS4 s = t_; ST4_OBS(cs4, const int, 4UL, "converted span<int const,4>"); } }
+  VF_ASSERT(span_conv_traits() == 1720u, "span converting constructor: constructible iff the extents agree or one is dynamic and U(*)[] -> T(*)[] is a qualification conversion; explicit iff dynamic -> static");
+  VF_REACH(); }
+
+/* the same for a second element type (short): dynamic <-> static, short -> short const */
+/*@GROUP name=span_conv_short props=C19,C02,C05 kind=K unwind=8 bound=len<=6 when=VF_PART==0@*/
+void h_span_conv_short(void) { VF_INPUT(unsigned char, n); VF_BUF(short, p, n, 6); VF_INPUT(unsigned char, i); VF_INPUT(unsigned char, o); VF_INPUT(unsigned char, c); VF_INPUT(unsigned char, op);
+  VF_INPUT(CHD, s); VF_INPUT(CH4, s4); VF_INPUT(HD, m); VF_INPUT(H4, m4); MKDYN(HD, src, p, n); MKST4(H4, src4, p); int kind = 0;
+  if (op == 0) { chd_from_hd(&s, &src); ISDYN(s, p, n, "span<short const>(span<short>)"); }
+  else if (op == 1) { hd_from_hd(&m, &src); ISDYN(m, p, n, "span<short>(span<short>)"); kind = 1; }
+  else { __CPROVER_assume(n == 4);
+    if (op == 2) { chd_from_h4(&s, &src4); ISDYN(s, p, 4, "span<short const>(span<short,4>)"); }
+    else if (op == 3) { hd_from_h4(&m, &src4); ISDYN(m, p, 4, "span<short>(span<short,4>)"); kind = 1; }
+    else if (op == 4) { ch4_from_hd(&s4, &src); ISST4(s4, p, "span<short const,4>(span<short>)"); kind = 2; }
+    else if (op == 5) { ch4_from_h4(&s4, &src4); ISST4(s4, p, "span<short const,4>(span<short,4>)"); kind = 2; }
+    else if (op == 6) { h4_from_hd(&m4, &src); ISST4(m4, p, "span<short,4>(span<short>)"); kind = 3; }
+    else { h4_from_h4(&m4, &src4); ISST4(m4, p, "span<short,4>(span<short,4>)"); kind = 3; } }
+  if (kind == 0) { DYN_OBS(chd, const short, 2UL, "converted span<short const>"); DYN_SUB(chd, const short); BYTES_ARE(chd_as_bytes(&s, &bd, &bn), const, p, 2UL * n); }
+  else if (kind == 1) { HD t_ = m; { HD s = t_; DYN_OBS(hd, short, 2UL, "converted span<short>"); DYN_SUB(hd, short); BYTES_ARE(hd_as_bytes(&s, &bd, &bn), const, p, 2UL * n); BYTES_ARE(hd_as_wbytes(&s, &bd, &bn), , p, 2UL * n); } }
+  else if (kind == 3) { H4 t_ = m4; { H4 s = t_; ST4_OBS(h4, short, 2UL, "converted span<short,4>"); SUBIST(short, h4_sub_1_3(&s, OUT), p + 1, 3, 3); } }
+  VF_REACH(); }
+
+/* observers / sub-views of the const-element and short instantiations from ARBITRARY states (set directly) */
+/*@GROUP name=span_elem_obs props=C19,C02,C05 kind=K unwind=8 bound=len<=6 when=VF_PART==0@*/
+void h_span_elem_obs(void) { VF_INPUT(unsigned char, n); VF_INPUT(unsigned char, i); VF_INPUT(unsigned char, o); VF_INPUT(unsigned char, c); VF_INPUT(unsigned char, sel); VF_BUF(int, pi, n, 6); VF_BUF(short, ph, n, 6);
+  if (sel == 0) { int *p = pi; MKDYN(CSD, s, p, n); DYN_OBS(csd, const int, 4UL, "span<int const>"); DYN_SUB(csd, const int); SUBIST(const int, csd_first_0(&s, OUT), p, 0, 0); SUBIST(const int, csd_last_0(&s, OUT), p + n, 0, 0); SUBIST(const int, csd_sub_0(&s, OUT), p, n, DYNV);
+    BYTES_ARE(csd_as_bytes(&s, &bd, &bn), const, p, 4UL * n); }
+  else if (sel == 1) { short *p = ph; MKDYN(HD, s, p, n); DYN_OBS(hd, short, 2UL, "span<short>"); DYN_SUB(hd, short); BYTES_ARE(hd_as_bytes(&s, &bd, &bn), const, p, 2UL * n); BYTES_ARE(hd_as_wbytes(&s, &bd, &bn), , p, 2UL * n); }
+  else if (sel == 2) { short *p = ph; MKDYN(CHD, s, p, n); DYN_OBS(chd, const short, 2UL, "span<short const>"); DYN_SUB(chd, const short); BYTES_ARE(chd_as_bytes(&s, &bd, &bn), const, p, 2UL * n); }
+  else if (sel == 3) { __CPROVER_assume(n == 4); int *p = pi; MKST4(CS4, s, p); ST4_OBS(cs4, const int, 4UL, "span<int const,4>"); SUBIST(const int, cs4_sub_1_2(&s, OUT), p + 1, 2, 2); }
+  else { __CPROVER_assume(n == 4); short *p = ph; MKST4(H4, s, p); ST4_OBS(h4, short, 2UL, "span<short,4>"); SUBIST(short, h4_sub_1_3(&s, OUT), p + 1, 3, 3); }
+  VF_REACH(); }
+
+/* constructors of the const-element / short instantiations: from (pointer, count), array<T,N>&, array<T,N> const&, C arrays, and the deduction guides */
+/*@GROUP name=span_elem_ctor props=C19,C02 kind=K unwind=8 bound=len<=6 when=VF_PART==0@*/
+void h_span_elem_ctor(void) { VF_INPUT(unsigned char, n); VF_BUF(int, p, n, 6); VF_BUF(short, q, n, 6); VF_INPUT(A4, arr); VF_INPUT(AH4, harr); VF_INPUT(CSD, a); VF_INPUT(CS4, t); VF_INPUT(HD, h); VF_INPUT(H4, h4); VF_INPUT(CHD, ch); VF_INPUT(CH4, ch4);
+  csd_ctor_ptr_n(&a, p, n); ISDYN(a, p, n, "span<int const>(int const*, count)"); a._storage._size = 77; csd_ctor_ptr_n_nc(&a, p, n); ISDYN(a, p, n, "span<int const>(int*, count)");
+  csd_ctor_carray(&a, &arr); ISDYN(a, arr._buf, 4, "span<int const>(array<int,4> const&)"); a._storage._size = 77; csd_ctor_array(&a, &arr); ISDYN(a, arr._buf, 4, "span<int const>(array<int,4>&)");
+  a._storage._size = 77; csd_ctor_carr(&a, &arr._buf); ISDYN(a, arr._buf, 4, "span<int const>(int const(&)[4])");
+  cs4_ctor_array(&t, &arr); ISST4(t, arr._buf, "span<int const,4>(array<int,4>&)"); t._storage._data = 0; cs4_ctor_carr(&t, &arr._buf); ISST4(t, arr._buf, "span<int const,4>(int const(&)[4])");
+  hd_ctor_ptr_n(&h, q, n); ISDYN(h, q, n, "span<short>(short*, count)"); hd_ctor_array(&h, &harr); ISDYN(h, harr._buf, 4, "span<short>(array<short,4>&)"); h._storage._size = 77; hd_ctor_carr(&h, &harr._buf); ISDYN(h, harr._buf, 4, "span<short>(short(&)[4])");
+  h4_ctor_array(&h4, &harr); ISST4(h4, harr._buf, "span<short,4>(array<short,4>&)"); h4._storage._data = 0; h4_ctor_carr(&h4, &harr._buf); ISST4(h4, harr._buf, "span<short,4>(short(&)[4])");
+  chd_ctor_carray(&ch, &harr); ISDYN(ch, harr._buf, 4, "span<short const>(array<short,4> const&)"); ch4_ctor_carray(&ch4, &harr); ISST4(ch4, harr._buf, "span<short const,4>(array<short,4> const&)");
+  { const int *d = 0; unsigned long m = 9; VF_ASSERT(ctad_carray(&d, &m, &arr) == 4 && m == 4 && d == arr._buf, "span(array<int,4> const&) deduces span<int const,4>"); }
+  { const int *d = 0; unsigned long m = 9; VF_ASSERT(ctad_ccarr(&d, &m, &arr._buf) == 4 && m == 4 && d == arr._buf, "span(int const(&)[4]) deduces span<int const,4>"); }
+  { short *d = 0; unsigned long m = 9; VF_ASSERT(ctad_harray(&d, &m, &harr) == 4 && m == 4 && d == harr._buf, "span(array<short,4>&) deduces span<short,4>"); }
+  VF_REACH(); }
+
 /* ---- C05: span ---------------------------------------------------------------------------------------------------- */
 /*@GROUP name=viol_span_index props=C05,C02 kind=K unwind=8 bound=len<=6 when=VF_PART==0@*/
 void h_viol_span_index(void) { VF_INPUT(unsigned char, n); VF_BUF(int, p, n, 6); VF_INPUT(unsigned long, i); VF_INPUT(unsigned char, op); MKSD(s, p, n); MKS4(t, p); S0 z; z._storage._data = p;
@@ -127,6 +235,17 @@ void h_viol_span_tmpl(void) { VF_INPUT(unsigned char, n); VF_BUF(int, p, n, 6); 
   else if (op == 4) { __CPROVER_assume(n < 4); sd_first_4(&s, &d, &m); }
   else if (op == 5) { __CPROVER_assume(n < 4); sd_sub_4_0(&s, &d, &m); }
   else sd_first_n(&s, 7, &d, &m); /* control: the run-time count form is checked (keeps the handler reachable in this group) */
+  VF_NORETURN_EXPECTED(); }
+
+/* [span.cons]/7 and /19: a STATIC-extent span constructed from (pointer, count) or from a dynamic-extent span requires count resp. s.size() == extent; otherwise the
+ * result claims `extent` elements over a range of another size (tier=thorough: see the report / known_findings before enabling it in quick) */
+/*@GROUP name=viol_span_conv props=C05,C02 kind=K unwind=8 bound=len<=6 tier=thorough when=VF_PART==0@*/
+void h_viol_span_conv(void) { VF_INPUT(unsigned char, n); VF_BUF(int, p, n, 6); VF_INPUT(unsigned char, op); VF_INPUT(S4, t); VF_INPUT(CS4, ct); MKSD(s, p, n); MKDYN(CSD, cs, p, n); int *d = 0; unsigned long m = 0;
+  VF_KNOWN(C05_span_static_size_unchecked, op <= 3);
+  EXPECT_VIOLATION_BUF(p, n); vf_sd_of = &s; vf_sd_snap = s;
+  if (op <= 3) __CPROVER_assume(n != 4);
+  if (op == 0) s4_ctor_sd(&t, &s); else if (op == 1) s4_ctor_ptr_n(&t, p, n); else if (op == 2) cs4_from_sd(&ct, &s); else if (op == 3) cs4_from_csd(&ct, &cs);
+  else sd_first_n(&s, 7, &d, &m); /* control: a checked precondition (keeps the handler reachable in this group) */
   VF_NORETURN_EXPECTED(); }
 
 /*@COMMON@*/
@@ -180,6 +299,15 @@ static _Bool w_mixed_last_static(unsigned char which) { return w_mixed(which) &&
 static _Bool w_static_nonzero(unsigned char which) { if (which >= NPAT) return 0; pat_t p = vf_pats[which]; _Bool r = 0; for (int k = 0; k < 3; ++k) r = r || (k < p.r && p.se[k] != DYNV && p.se[k] != 0); return r && p.r > 0; }
 #define NONNEG(x) ((x) >= 0)
 #define SYM3(T, v) VF_INPUT_ARR(T, v, 3)
+/* ---- conversion matrix between the patterns ([mdspan.extents.cons]/1-4, same for layout_left/right::mapping and mdspan which forward to it):
+ * Dst(Src const&) exists iff the ranks agree and at every position the static extents agree or at least one of them is dynamic; it is explicit iff some
+ * position goes dynamic -> static or the source index type has the larger maximum; precondition: src.extent(r) == Dst::static_extent(r) wherever that
+ * is static (and representable); postcondition: extent(r) == src.extent(r) for EVERY r.  The source object is a raw image of the source type: the run-time
+ * extents array<I, rank_dynamic()> at offset 0 (behind the data handle for mdspan), written directly for the symbolic source pattern vf_pats[src]. */
+static _Bool p_conv_ok(pat_t sp, pat_t dp) { _Bool ok = sp.r == dp.r; for (int k = 0; k < 3; ++k) if (k < sp.r && k < dp.r) ok = ok && (sp.se[k] == DYNV || dp.se[k] == DYNV || sp.se[k] == dp.se[k]); return ok; }
+static _Bool p_conv_narrow(pat_t sp, pat_t dp) { _Bool nw = 0; for (int k = 0; k < 3; ++k) if (k < dp.r) nw = nw || (dp.se[k] != DYNV && sp.se[k] == DYNV); return nw; }
+#define OT_WIDER (VF_IT != 1)   /* numeric_limits<IT>::max() < numeric_limits<long>::max() */
+#define CONV_PRE(ok, dp, ev) do { if (ok) for (int k_ = 0; k_ < 3; ++k_) if (k_ < (dp).r && (dp).se[k_] != DYNV) __CPROVER_assume((ev)[k_] == (IT)(dp).se[k_]); } while (0)
 #endif
 #if VF_PART == 1
 #define CHK_EXT_OBS(name, R, A, B, C, sfx) \
@@ -265,6 +393,37 @@ void h_ext_ctor_r3(void) { VF_INPUT(unsigned char, which); SYM3(IT, v); VF_INPUT
   VF_KNOWN(C19_extents_ctor_all_mixed, (op == 2 || op == 4 || op == 6) && w_mixed(which));
   VF_KNOWN(C19_extents_conv_wrong_side, ((op == 7 || op == 9) && w_mixed_last_static(which)) || ((op == 8 || op == 10) && w_static_nonzero(which)));
 #define VP(name, R, A, B, C, sfx) if (RSEL(R) && which == IDX_##name) ext_ctor_##name(v, op);
+#include "patterns.def"
+#undef VP
+  VF_REACH(); }
+
+/*@COMMON@*/
+#if VF_PART == 1
+/* extents<IT, Dst...>(extents<IT|long, Src...> const&) for every (source pattern, destination pattern) pair of patterns.def */
+#define CHK_EXT_CONV(name, R, A, B, C, sfx) \
+static void ext_conv_##name(unsigned char src, const IT *v, _Bool other) { const pat_t dp = {R, {A, B, C}}; const pat_t sp = vf_pats[src]; ETYPE(sfx) e; IT raw[3] = {7, 7, 7}; long oraw[3] = {7, 7, 7}; IT ev[3], junk[3] = {1, 1, 1}; \
+  p_vals(sp, v, ev); const _Bool ok = p_conv_ok(sp, dp); CONV_PRE(ok, dp, ev); P_SET(IT, raw, sp, ev); P_SET(long, oraw, sp, ev); P_SET(IT, &e, dp, junk); \
+  const unsigned r = other ? name##_conv_from_o(&e, src, oraw) : name##_conv_from(&e, src, raw); \
+  VF_ASSERT((r & 1) == ok, #name ": extents(extents<Other> const&) exists iff same rank and position-wise equal-or-dynamic static extents"); \
+  if (ok) { VF_ASSERT(((r >> 1) & 1) == !(p_conv_narrow(sp, dp) || (other && OT_WIDER)), #name ": the converting constructor is explicit iff dynamic -> static or a wider source index type"); \
+    VF_ASSERT(p_holds(dp, &e, ev), #name ": extents(extents<Other> const&) stores the source's extent at every dynamic position"); \
+    for (int q = 0; q < R; ++q) VF_ASSERT(name##_extent(&e, q) == ev[q], #name ": extent(r) of the converted extents == source extent(r) for every r"); } }
+#define VP CHK_EXT_CONV
+#include "patterns.def"
+#undef VP
+#define EXT_CONV_BODY VF_INPUT(unsigned char, which); VF_INPUT(unsigned char, src); SYM3(IT, v); VF_INPUT_BOOL(other); __CPROVER_assume(src < NPAT); for (int q = 0; q < 3; ++q) __CPROVER_assume(NONNEG(v[q]) && (unsigned long)v[q] <= 0x7fffffffffffffffUL);
+#endif
+
+/*@GROUP name=ext_conv_r012 props=C19,C02 kind=K unwind=5 objbits=14 timeout=1500 solver=kissat when=VF_PART==1@*/
+void h_ext_conv_r012(void) { EXT_CONV_BODY
+#define VP(name, R, A, B, C, sfx) if (R <= 2 && which == IDX_##name) ext_conv_##name(src, v, other);
+#include "patterns.def"
+#undef VP
+  VF_REACH(); }
+
+/*@GROUP name=ext_conv_r3 props=C19,C02 kind=K unwind=5 objbits=14 timeout=1500 solver=kissat when=VF_PART==1@*/
+void h_ext_conv_r3(void) { EXT_CONV_BODY
+#define VP(name, R, A, B, C, sfx) if (R == 3 && which == IDX_##name) ext_conv_##name(src, v, other);
 #include "patterns.def"
 #undef VP
   VF_REACH(); }
@@ -375,6 +534,71 @@ void h_left_ctor(void) { LAYC_BODY
 void h_right_ctor(void) { LAYC_BODY
   VF_KNOWN(C19_extents_conv_wrong_side, (op == 4 && w_mixed_last_static(which)) || (op == 5 && w_static_nonzero(which)));
 #define VP(name, R, A, B, C, sfx) if (which == IDX_##name) layc_lr_##name(v, w, op);
+#include "patterns.def"
+#undef VP
+  VF_REACH(); }
+
+/*@COMMON@*/
+#if VF_PART == 7
+/* layout_left/right::mapping<Dst>(mapping<Src> const&) for every (source, destination) pattern pair; mode 0: same layout, same index type; 1: same layout,
+ * source index type long; 2: the OTHER layout (layout_left <- layout_right and vice versa: declared for rank <= 1 only, [mdspan.layout.left.cons]/5) */
+#define CHK_LAYV(name, R, A, B, C, sfx, P, L) \
+static void layv_##P##_##name(unsigned char src, const IT *v, unsigned char mode) { const pat_t dp = {R, {A, B, C}}; const pat_t sp = vf_pats[src]; MTYPE(L, sfx) m; IT raw[3] = {7, 7, 7}; long oraw[3] = {7, 7, 7}; IT ev[3], junk[3] = {1, 1, 1}; \
+  p_vals(sp, v, ev); const _Bool ok = p_conv_ok(sp, dp) && (mode != 2 || R <= 1); CONV_PRE(ok, dp, ev); P_SET(IT, raw, sp, ev); P_SET(long, oraw, sp, ev); P_SET(IT, &m, dp, junk); \
+  const unsigned r = mode == 0 ? name##_##P##_conv_from(&m, src, raw) : mode == 1 ? name##_##P##_conv_from_o(&m, src, oraw) : name##_##P##_conv_from_x(&m, src, raw); \
+  VF_ASSERT((r & 1) == ok, #name " " #L ": mapping(mapping<Other> const&) exists iff the extents are convertible (other layout: and rank <= 1)"); \
+  if (ok) { VF_ASSERT(((r >> 1) & 1) == !(p_conv_narrow(sp, dp) || (mode == 1 && OT_WIDER)), #name " " #L ": the converting constructor is explicit iff the extents conversion is"); \
+    VF_ASSERT(p_holds(dp, &m, ev), #name " " #L ": mapping(mapping<Other> const&) keeps every extent of the source (hence the same index -> offset function)"); \
+    if (R > 0) VF_ASSERT(name##_##P##_cv_stride(&m, UNITK_##P(R)) == 1, #name " " #L ": the fastest-running dimension of the converted mapping has stride 1 (no handler for a valid rank index)"); } }
+#define UNITK_ll(R) 0
+#define UNITK_lr(R) (R - 1)
+/* heterogeneous operator== / != between mappings over DIFFERENT patterns of the same rank ([mdspan.layout.left.obs]/5: x.extents() == y.extents(), which compares
+ * rank and every extent as VALUES, also across index types); the matrix contains both operand orders */
+#define CHK_LAYQ(name, R, A, B, C, sfx, P, L) \
+static void layq_##P##_##name(unsigned char src, const IT *v, const IT *w, _Bool other) { const pat_t dp = {R, {A, B, C}}; const pat_t sp = vf_pats[src]; MTYPE(L, sfx) m; IT raw[3] = {7, 7, 7}; long oraw[3] = {7, 7, 7}; IT ev[3], fv[3]; \
+  p_vals(dp, v, ev); p_vals(sp, w, fv); P_SET(IT, &m, dp, ev); P_SET(IT, raw, sp, fv); P_SET(long, oraw, sp, fv); \
+  const int r = other ? name##_##P##_eq_with_o(&m, src, oraw) : name##_##P##_eq_with(&m, src, raw); \
+  if (sp.r != R) VF_ASSERT(r == -1, #name " " #L ": (different rank: not compared here)"); \
+  else { _Bool eq = 1; for (int q = 0; q < R; ++q) eq = eq && ev[q] == fv[q]; VF_ASSERT(r == eq, #name " " #L ": a == b iff every extent has the same value, for every (ordered) pattern pair of the same rank"); } }
+#endif
+
+#if VF_PART == 7
+#define VP(name, R, A, B, C, sfx) CHK_LAYV(name, R, A, B, C, sfx, ll, left) CHK_LAYV(name, R, A, B, C, sfx, lr, right) CHK_LAYQ(name, R, A, B, C, sfx, ll, left) CHK_LAYQ(name, R, A, B, C, sfx, lr, right)
+#include "patterns.def"
+#undef VP
+#define LAYV_BODY VF_INPUT(unsigned char, which); VF_INPUT(unsigned char, src); SYM3(IT, v); VF_INPUT(unsigned char, mode); __CPROVER_assume(src < NPAT && mode <= 2); for (int q = 0; q < 3; ++q) __CPROVER_assume(NONNEG(v[q]) && (unsigned long)v[q] <= 0x7fffffffffffffffUL);
+#endif
+
+/*@GROUP name=left_conv props=C19,C02,C05 kind=K unwind=5 objbits=14 timeout=1500 solver=kissat when=VF_PART==7@*/
+void h_left_conv(void) { LAYV_BODY
+#define VP(name, R, A, B, C, sfx) if (which == IDX_##name) layv_ll_##name(src, v, mode);
+#include "patterns.def"
+#undef VP
+  VF_REACH(); }
+
+/*@GROUP name=right_conv props=C19,C02,C05 kind=K unwind=5 objbits=14 timeout=1500 solver=kissat when=VF_PART==7@*/
+void h_right_conv(void) { LAYV_BODY
+#define VP(name, R, A, B, C, sfx) if (which == IDX_##name) layv_lr_##name(src, v, mode);
+#include "patterns.def"
+#undef VP
+  VF_REACH(); }
+
+/*@COMMON@*/
+#if VF_PART == 7
+#define LAYQ_BODY VF_INPUT(unsigned char, which); VF_INPUT(unsigned char, src); SYM3(IT, v); SYM3(IT, w); VF_INPUT_BOOL(other); __CPROVER_assume(src < NPAT); \
+  for (int q = 0; q < 3; ++q) __CPROVER_assume(NONNEG(v[q]) && NONNEG(w[q]) && (unsigned long)v[q] <= 0x7fffffffffffffffUL && (unsigned long)w[q] <= 0x7fffffffffffffffUL);
+#endif
+
+/*@GROUP name=left_eq_matrix props=C19,C02 kind=K unwind=5 objbits=14 timeout=1500 solver=kissat when=VF_PART==7@*/
+void h_left_eq_matrix(void) { LAYQ_BODY
+#define VP(name, R, A, B, C, sfx) if (which == IDX_##name) layq_ll_##name(src, v, w, other);
+#include "patterns.def"
+#undef VP
+  VF_REACH(); }
+
+/*@GROUP name=right_eq_matrix props=C19,C02 kind=K unwind=5 objbits=14 timeout=1500 solver=kissat when=VF_PART==7@*/
+void h_right_eq_matrix(void) { LAYQ_BODY
+#define VP(name, R, A, B, C, sfx) if (which == IDX_##name) layq_lr_##name(src, v, w, other);
 #include "patterns.def"
 #undef VP
   VF_REACH(); }
@@ -531,6 +755,73 @@ static void mdc_##P##_##name(int *buf, const IT *v, unsigned char op) { const pa
 /*@GROUP name=mdspan_ctor props=C19,C02 kind=K unwind=5 objbits=14 timeout=1500 when=VF_PART==2@*/
 void h_mdspan_ctor(void) { VF_INPUT(unsigned char, which); SYM3(IT, v); VF_INPUT(unsigned char, op); VF_INPUT_BOOL(right); VF_INPUT_ARR(int, store, 2); __CPROVER_assume(op <= 5); for (int q = 0; q < 3; ++q) __CPROVER_assume(NONNEG(v[q]));
 #define VP(name, R, A, B, C, sfx) if (which == IDX_##name) { if (right) mdc_lr_##name(store, v, op); else mdc_ll_##name(store, v, op); }
+#include "patterns.def"
+#undef VP
+  VF_REACH(); }
+
+/*@COMMON@*/
+#if VF_PART == 8
+/* ---- mdspan<T, Dst, L>(mdspan<U, Src, L> const&) for every (source, destination) pattern pair ([mdspan.mdspan.cons]/17-21): data_handle() is the source's,
+ * extent(r) == source extent(r) for every r.  mode 0: int -> int const; 1: int -> int const with source index type long; int const -> int must not exist.
+ * The source object is a raw image {data handle; run-time extents; (tail: empty accessor, padding)} for the symbolic source pattern. */
+#define CHK_MDV(name, R, A, B, C, sfx, P) \
+static void mdv_##P##_##name(unsigned char src, int *buf, const IT *v, unsigned char mode) { const pat_t dp = {R, {A, B, C}}; const pat_t sp = vf_pats[src]; IT ev[3], out[3] = {9, 9, 9}; const int *cp = 0, *cat = 0; int *mp = 0; \
+  struct { int *ptr; IT raw[3]; unsigned char tail[16]; } s; struct { int *ptr; long raw[3]; unsigned char tail[16]; } os; \
+  p_vals(sp, v, ev); const _Bool ok = p_conv_ok(sp, dp); CONV_PRE(ok, dp, ev); s.ptr = buf; os.ptr = buf; for (int q = 0; q < 3; ++q) { s.raw[q] = 7; os.raw[q] = 7; } P_SET(IT, s.raw, sp, ev); P_SET(long, os.raw, sp, ev); \
+  const unsigned r = mode == 0 ? name##_m##P##_conv_c(src, &s, &cp, out, 0, &cat) : name##_m##P##_conv_o(src, &os, &cp, out, 0, &cat); \
+  VF_ASSERT((r & 1) == ok, #name " mdspan " #P ": mdspan(mdspan<Other> const&) exists iff the extents are convertible"); \
+  VF_ASSERT(name##_m##P##_conv_drop_const(src, &s, &mp, out) == 0, #name " mdspan " #P ": no conversion from mdspan<int const> to mdspan<int>"); \
+  if (ok) { VF_ASSERT(((r >> 1) & 1) == !(p_conv_narrow(sp, dp) || (mode == 1 && OT_WIDER)), #name " mdspan " #P ": the converting constructor is explicit iff the extents conversion is"); \
+    VF_ASSERT(cp == buf, #name " mdspan " #P ": mdspan(mdspan<Other> const&): data_handle() == source data_handle()"); \
+    for (int q = 0; q < R; ++q) VF_ASSERT(out[q] == ev[q], #name " mdspan " #P ": extent(r) of the converted mdspan == source extent(r) for every r"); } }
+#define VP(name, R, A, B, C, sfx) CHK_MDV(name, R, A, B, C, sfx, ll) CHK_MDV(name, R, A, B, C, sfx, lr)
+#include "patterns.def"
+#undef VP
+#define MDV_BODY VF_INPUT(unsigned char, which); VF_INPUT(unsigned char, src); SYM3(IT, v); VF_INPUT(unsigned char, mode); VF_INPUT_ARR(int, store, 2); __CPROVER_assume(src < NPAT && mode <= 1); \
+  for (int q = 0; q < 3; ++q) __CPROVER_assume(NONNEG(v[q]) && (unsigned long)v[q] <= 0x7fffffffffffffffUL);
+#endif
+
+/*@GROUP name=mdspan_conv_left props=C19,C02 kind=K unwind=5 objbits=14 timeout=1500 solver=kissat when=VF_PART==8@*/
+void h_mdspan_conv_left(void) { MDV_BODY
+#define VP(name, R, A, B, C, sfx) if (which == IDX_##name) mdv_ll_##name(src, store, v, mode);
+#include "patterns.def"
+#undef VP
+  VF_REACH(); }
+
+/*@GROUP name=mdspan_conv_right props=C19,C02 kind=K unwind=5 objbits=14 timeout=1500 solver=kissat when=VF_PART==8@*/
+void h_mdspan_conv_right(void) { MDV_BODY
+#define VP(name, R, A, B, C, sfx) if (which == IDX_##name) mdv_lr_##name(src, store, v, mode);
+#include "patterns.def"
+#undef VP
+  VF_REACH(); }
+
+/*@COMMON@*/
+#if VF_PART == 8
+/* element access THROUGH the converted view: &dst(i...) == source data_handle() + closed-form offset over the SOURCE extents, i.e. inside the exact-size object
+ * of required_span_size() elements the source views (bounded: extents <= 4; also the only place where mdspan<int const, ...>::operator() is exercised) */
+#define CHK_MDA(name, R, A, B, C, sfx, P) \
+static void mda_##P##_##name(unsigned char src, const IT *v, const IT *ix) { const pat_t dp = {R, {A, B, C}}; const pat_t sp = vf_pats[src]; IT ev[3], out[3] = {9, 9, 9}; unsigned long st[3]; const int *cp = 0, *cat = 0; \
+  struct { int *ptr; IT raw[3]; unsigned char tail[16]; } s; p_vals(sp, v, ev); if (!p_conv_ok(sp, dp)) return; CONV_PRE(1, dp, ev); if (!in_range(ix, ev, R)) return; \
+  ref_strides_##P(ev, st); const unsigned long rss = ref_size(ev); int *buf = (int *)VF_ALLOC(rss * sizeof(int)); s.ptr = buf; for (int q = 0; q < 3; ++q) s.raw[q] = 7; P_SET(IT, s.raw, sp, ev); \
+  const unsigned r = name##_m##P##_conv_c(src, &s, &cp, out, ix, &cat); VF_ASSERT((r & 1) == 1 && cp == buf, #name " mdspan " #P ": converted from every convertible source pattern, same data handle"); \
+  VF_ASSERT(ref_map(ix, st, R) < rss && cat == buf + ref_map(ix, st, R), #name " mdspan " #P ": &converted(i...) == source data_handle() + closed-form offset over the source extents (inside the source's elements)"); }
+#define VP(name, R, A, B, C, sfx) CHK_MDA(name, R, A, B, C, sfx, ll) CHK_MDA(name, R, A, B, C, sfx, lr)
+#include "patterns.def"
+#undef VP
+#define MDA_BODY VF_INPUT(unsigned char, which); VF_INPUT(unsigned char, src); SYM3(unsigned char, dv); SYM3(unsigned char, di); __CPROVER_assume(src < NPAT); \
+  for (int q = 0; q < 3; ++q) __CPROVER_assume(dv[q] <= 4 && di[q] <= 4); WIDEN3(v, dv); WIDEN3(ix, di);
+#endif
+
+/*@GROUP name=mdspan_conv_at_left props=C19,C02,C05 kind=B bound=extent<=4 unwind=5 objbits=14 timeout=1500 solver=kissat tier=thorough when=VF_PART==8@*/
+void h_mdspan_conv_at_left(void) { MDA_BODY
+#define VP(name, R, A, B, C, sfx) if (which == IDX_##name) mda_ll_##name(src, v, ix);
+#include "patterns.def"
+#undef VP
+  VF_REACH(); }
+
+/*@GROUP name=mdspan_conv_at_right props=C19,C02,C05 kind=B bound=extent<=4 unwind=5 objbits=14 timeout=1500 solver=kissat tier=thorough when=VF_PART==8@*/
+void h_mdspan_conv_at_right(void) { MDA_BODY
+#define VP(name, R, A, B, C, sfx) if (which == IDX_##name) mda_lr_##name(src, v, ix);
 #include "patterns.def"
 #undef VP
   VF_REACH(); }
